@@ -1,7 +1,9 @@
 """C09 — empirical quantiles: correspondence of csep.utils.stats with Model/Ecdf.lean + direct oracle."""
 import bisect
+import contextlib
 import math
 import os
+import zlib
 import itertools
 from fractions import Fraction
 
@@ -207,10 +209,47 @@ def _relayout(arr, how):
         return a
     if how == "byteswapped":
         return arr.astype(arr.dtype.newbyteorder())
+    # (h) copies before use: the sample handed over is a copy / deep copy / pickle image of the array that was built
+    if how == "copied":
+        import copy
+        return copy.copy(arr)
+    if how == "deepcopied":
+        import copy
+        return copy.deepcopy(arr)
+    if how == "pickled":
+        import pickle
+        return pickle.loads(pickle.dumps(arr))
     return arr
 
 
-LAYOUTS = ["strided", "negstride", "readonly", "byteswapped"]
+LAYOUTS = ["strided", "negstride", "readonly", "byteswapped", "copied", "deepcopied", "pickled"]
+
+
+# (k) GLOBAL NUMERIC STATE: a share of the calls on valid inputs runs while the CALLER has numpy's floating-point error
+# handling set to raise. The lookups only sort, compare and divide an integer by a positive integer: nothing in them has
+# to touch a floating-point flag, so the answer must be the same. "all" includes underflow / overflow; it is used where the
+# unchanged tree is robust (probed: every generator below on seeds 0-4 and thorough), see notes/C09.md for what is left out.
+ERRSTATES = {"div-inv": dict(divide="raise", invalid="raise"), "all": dict(all="raise")}
+_FORCE_STATE = os.environ.get("C09_FORCE_ERRSTATE")         # probing aid: put EVERY call under this state
+
+
+@contextlib.contextmanager
+def _numstate(name):
+    """the caller's global numeric state: numpy error handling set to raise and a low-precision decimal context"""
+    name = _FORCE_STATE or name
+    if not name:
+        yield
+        return
+    import decimal
+    with numpy.errstate(**ERRSTATES[name]), decimal.localcontext() as ctx:
+        ctx.prec = 3
+        yield
+
+
+def _pick_state(*key):
+    """deterministic choice (replayable from the case): about one call in four under a raising error state"""
+    h = zlib.crc32(repr(key).encode())
+    return [None, None, None, None, None, "div-inv", "all", "all"][h % 8]
 
 
 def _impl(arg, v):
@@ -274,6 +313,9 @@ def _quiet(f):
         return None, e
 
 
+_REPLAY_STATE = {}
+
+
 class _Failed:
     """marker: the guarded call raised and has been reported"""
     def __repr__(self):
@@ -283,11 +325,11 @@ class _Failed:
 _FAILED = _Failed()
 
 
-def _guard(run, case, what, f, signature=None):
+def _guard(run, case, what, f, signature=None, state=None):
     """call the real API; an exception on an input inside the property's quantifier is an ORACLE FAILURE with that input
     as replay (never a harness crash)"""
     try:
-        with numpy.errstate(all="ignore"):
+        with (_numstate(state) if state else numpy.errstate(all="ignore")):
             return f()
     except Exception as e:
         run.oracle_failure(case, f"{what}: exception {type(e).__name__}: {e}", signature=signature)
@@ -367,8 +409,14 @@ def _check_case(run, drv, pending, x, v, as_list, tag, layout=None):
             k = drv.ask(f"ecdf_dt {doms[0]} {doms[1]} {xs_txt()}")
             pending.append(("np", case, k, observed, aw in KNOWN_FINDING_CLASSES))
     snap = arg.tobytes() if isinstance(arg, numpy.ndarray) and n <= 5000 else (list(arg) if isinstance(arg, list) and n <= 64 else None)
+    es = _REPLAY_STATE.get("errstate") if tag == "replay" else \
+        _pick_state(case["x"] if n <= 12 else n, case["v"], case["vtype"], case["xdtype"])
+    if es:
+        case["errstate"] = es
+        run.count("errstate:" + es)
     try:
-        ge, le, q, gec, lec = _impl(arg, v)
+        with _numstate(es):
+            ge, le, q, gec, lec = _impl(arg, v)
     except Exception as e:  # the property promises a value for every non-empty sample
         run.oracle_failure(full(), f"exception {type(e).__name__}: {e}", signature=sig)
         ask_np(("exc", type(e).__name__))
@@ -543,16 +591,22 @@ def _binned(run, rng, tier):
     drv, pend = Driver(), []
     emp, exc = _quiet(lambda: stats.binned_ecdf([], [1.0, 2.0]))
     _outside(run, "empty-sample-binned", exc is None and emp is None)
-    for _ in range(60 if tier == "quick" else 600):
+    for _ in range(150 if tier == "quick" else 1200):
         n = rng.randint(1, 60)
         pool = [round(rng.uniform(0, 20), 1) for _ in range(rng.randint(1, 12))]
+        if rng.random() < 0.5:      # zeros, signed zeros and subnormal values are ordinary sample values
+            pool += rng.sample([0.0, -0.0, 5e-324, 1e-310, 2.2250738585072014e-308], 2)
         x = [rng.choice(pool) for _ in range(n)]
         vals = sorted(set([rng.choice(pool) for _ in range(4)] + [min(pool) - 1.0, max(pool) + 1.0,
                                                                   round(rng.uniform(0, 20), 2)]))
         case = dict(x=[repr(t) for t in x], vals=[repr(v) for v in vals], tag="binned")
+        if rng.random() < 0.5:
+            case["errstate"] = rng.choice(["div-inv", "all", "all"])
+            run.count("errstate:" + case["errstate"])
         run.case(case, ("binned", tuple(x), tuple(vals)))
         try:
-            got = stats.binned_ecdf(numpy.array(x), numpy.array(vals))
+            with _numstate(case.get("errstate")):
+                got = stats.binned_ecdf(numpy.array(x), numpy.array(vals))
             ex, ey = stats.ecdf(numpy.array(x)) if "ecdf" not in _MISSING else (sorted(x), [(i + 1) / n for i in range(n)])
         except Exception as e:
             run.oracle_failure(case, f"exception {type(e).__name__}: {e}")
@@ -729,9 +783,13 @@ def _binned_dtypes(run, rng, tier):
         bsig = next(("ecdf:" + a for a in aw if a in KNOWN_FINDING_CLASSES), None)
         n = len(fx)
         case = dict(x=[str(t) for t in fx], vals=[str(t) for t in fvals], xdtype=dx.name, vdtype=dq.name, tag="binned-dtype")
+        if rng.random() < 0.3:
+            case["errstate"] = rng.choice(["div-inv", "all"])
+            run.count("errstate:" + case["errstate"])
         run.case(case, ("binned", dx.name, dq.name, tuple(fx), tuple(fvals)))
         try:
-            got = stats.binned_ecdf(x, vals)
+            with _numstate(case.get("errstate")):
+                got = stats.binned_ecdf(x, vals)
         except Exception as e:
             run.oracle_failure(case, f"exception {type(e).__name__}: {e}", signature=bsig)
             continue
@@ -876,6 +934,15 @@ def _run_session(run, case):
         elif op == "fill-progressively":        # a preallocated buffer of simulations filled step by step
             for i, t in enumerate(st["vals"][:len(x)]):
                 x[i] = conv(t)
+        elif op == "rejected-call":
+            # (i) a call on the SAME sample that the library rejects (the query is not a number); the caller catches the
+            # exception and goes on: the next lookups must be those of a fresh call
+            for bad in (object(), "not-a-number", [1, 2]):
+                try:
+                    with numpy.errstate(all="ignore"):
+                        stats.get_quantiles(x, bad)
+                except Exception:
+                    pass
         elif op == "other-array":
             if _guard(run, case, f"step {k} (lookup on another array)", lambda: stats.get_quantiles(other, conv(st["v"]))) is _FAILED:
                 return
@@ -884,20 +951,21 @@ def _run_session(run, case):
         n = len(fx)
         kge, kle = sum(1 for t in fx if t >= _exact(v)), sum(1 for t in fx if t <= _exact(v))
         try:
-            how = st.get("call", "quantiles")
-            if how == "cdf" and "ecdf" in _MISSING:
-                how = "separate"
-            if how == "quantiles":
-                got = tuple(map(_scalar, stats.get_quantiles(x, v)))
-            elif how == "separate":
-                got = (_scalar(stats.greater_equal_ecdf(x, v)), _scalar(stats.less_equal_ecdf(x, v)))
-            elif how == "cdf":                   # the documented cdf= argument with the ecdf of the sample AS IT IS NOW
-                cdf = stats.ecdf(x)
-                got = (_scalar(stats.greater_equal_ecdf(x, v, cdf=cdf)), _scalar(stats.less_equal_ecdf(x, v, cdf=cdf)))
-            else:
-                vals_buf[0] = v
-                b = stats.binned_ecdf(x, vals_buf)
-                got = (_scalar(stats.greater_equal_ecdf(x, v)), _scalar(b[1][0]))
+            with _numstate(case.get("errstate")):
+                how = st.get("call", "quantiles")
+                if how == "cdf" and "ecdf" in _MISSING:
+                    how = "separate"
+                if how == "quantiles":
+                    got = tuple(map(_scalar, stats.get_quantiles(x, v)))
+                elif how == "separate":
+                    got = (_scalar(stats.greater_equal_ecdf(x, v)), _scalar(stats.less_equal_ecdf(x, v)))
+                elif how == "cdf":                   # the documented cdf= argument with the ecdf of the sample AS IT IS NOW
+                    cdf = stats.ecdf(x)
+                    got = (_scalar(stats.greater_equal_ecdf(x, v, cdf=cdf)), _scalar(stats.less_equal_ecdf(x, v, cdf=cdf)))
+                else:
+                    vals_buf[0] = v
+                    b = stats.binned_ecdf(x, vals_buf)
+                    got = (_scalar(stats.greater_equal_ecdf(x, v)), _scalar(b[1][0]))
         except Exception as e:
             run.oracle_failure(case, f"step {k} ({op}): exception {type(e).__name__}: {e}")
             return
@@ -922,11 +990,14 @@ def _sessions(run, rng, tier):
         steps = []
         for _k in range(rng.randint(2, 6)):
             op = rng.choice(["none", "refill", "refill", "set-one", "double", "sort-inplace", "reverse",
-                             "fill-progressively", "other-array", "realloc", "realloc", "append"])
+                             "fill-progressively", "other-array", "realloc", "realloc", "append", "rejected-call"])
             steps.append(dict(op=op, vals=[val() for _ in range(n)], i=rng.randrange(n), v=q(),
                               call=rng.choice(["quantiles", "quantiles", "separate", "binned", "cdf"])))
         case = dict(tag="session", xdtype=dt.name, init=[val() for _ in range(n)], steps=steps,
                     container=rng.choice(["array", "array", "list"]))
+        if rng.random() < 0.25:
+            case["errstate"] = rng.choice(["div-inv", "all"])
+            run.count("errstate:" + case["errstate"])
         run.case(dict(tag="session", xdtype=dt.name, n=n, container=case["container"], ops=[st["op"] for st in steps]),
                  ("session", dt.name, tuple(case["init"]), tuple((st["op"], tuple(st["vals"]), st["v"]) for st in steps)))
         run.count("session")
@@ -1036,7 +1107,8 @@ def _run_code_case(run, case, drv=None, pend=None):
             form = "positional"
     got = None
     try:
-        with numpy.errstate(all="ignore"):
+        with (_numstate(case.get("errstate")) if (_FORCE_STATE or case.get("errstate")) and stale is None and kge is not None
+              else numpy.errstate(all="ignore")):
             if stale is not None:
                 cdf = stats.ecdf(numpy.array([float(Fraction(t)) for t in stale]))
                 got = (stats.greater_equal_ecdf(x, v, cdf=cdf), stats.less_equal_ecdf(x, v, cdf=cdf))
@@ -1057,6 +1129,8 @@ def _run_code_case(run, case, drv=None, pend=None):
             else:                                # binned_ecdf at [v] (+ a second point above everything)
                 top = int(max(fx)) + 1 if dt.kind == "O" else float(max(fx)) + 1.0      # a second point above everything
                 vals = [v, top] if (fv is None or fv < Fraction(top)) and case["v"] != "inf" else [v]
+                if dt.kind == "O" and len(vals) == 2 and numpy.asarray(vals).dtype.kind == "f":
+                    vals = [v]      # two Python ints straddling 2**63 as QUERY list: numpy makes them float64 (D48's family)
                 how = case.get("vals_as") if dt.kind != "O" else ("tuple" if case.get("vals_as") == "tuple" else "list")
                 vals = tuple(vals) if how == "tuple" else (numpy.array([float(t) for t in vals]) if how == "array" else vals)
                 b = stats.binned_ecdf(x, vals) if form == "binned" else stats.binned_ecdf(vals=vals, x=x)
@@ -1142,6 +1216,9 @@ def _code_layer(run, rng, tier):
                     vals_as=rng.choice(["list", "tuple", "array"]))
         if vt.endswith("@0d") and form.startswith("binned"):
             case["vals_as"] = "list"
+        if rng.random() < 0.3:
+            case["errstate"] = rng.choice(["div-inv", "all", "all"])
+            run.count("errstate:" + case["errstate"])
         if rng.random() < 0.04:
             case["stale"] = [str(rng.choice(vals) + rng.choice([-1, 0, 2])) for _ in range(rng.choice([1, 2, 5]))]
             case["form"] = "positional"
@@ -1254,7 +1331,7 @@ def _run_inf_case(run, case, drv=None, pend=None):
     snap = arr.tobytes()
     call = case["call"]
     try:
-        with numpy.errstate(all="ignore"):
+        with (_numstate(case.get("errstate")) if (_FORCE_STATE or case.get("errstate")) else numpy.errstate(all="ignore")):
             if call == "quantiles":
                 got = stats.get_quantiles(x, v)
             elif call == "separate":
@@ -1300,6 +1377,9 @@ def _infinite_samples(run, rng, tier):
         vt = rng.choice(["float", dt.name, "float64", dt.name + "@0d"])
         case = dict(tag="inf-sample", xdtype=dt.name, x=[repr(float(t)) for t in vals], v=repr(float(q)), vtype=vt,
                     as_list=rng.random() < 0.3, call=rng.choice(["quantiles", "quantiles", "separate", "cdf", "binned", "quantiles-kw"]))
+        if rng.random() < 0.3:
+            case["errstate"] = rng.choice(["div-inv", "all", "all"])
+            run.count("errstate:" + case["errstate"])
         run.case(case, ("inf", dt.name, tuple(case["x"]), case["v"], vt, case["call"]))
         run.count("inf-sample:" + ("all-infinite" if all(math.isinf(t) for t in vals) else
                                    ("with-infinities" if any(math.isinf(t) for t in vals) else "finite")))
@@ -1537,6 +1617,8 @@ def _min_max(run, rng, tier):
 def replay(run, payload):
     case = payload["case"]
     _detect_helpers(run)
+    _REPLAY_STATE.clear()
+    _REPLAY_STATE["errstate"] = case.get("errstate")
     if case.get("tag") in ("sup_dist_na", "sup_dist", "min_max", "infinite-query"):
         return _replay_extra(run, case)
     if case.get("tag") == "session":
@@ -1574,7 +1656,7 @@ def replay(run, payload):
         x = numpy.array([int(t) if dx.kind in "iu" else float(t) for t in fx], dtype=dx)
         vals = numpy.array([int(t) if dq.kind in "iu" else float(t) for t in fvals], dtype=dq)
         run.case(case, None)
-        got = _guard(run, case, "binned_ecdf", lambda: stats.binned_ecdf(x, vals))
+        got = _guard(run, case, "binned_ecdf", lambda: stats.binned_ecdf(x, vals), state=case.get("errstate"))
         if got is _FAILED:
             return
         want = [sum(1 for t in fx if t <= v) / len(fx) for v in fvals]
@@ -1606,7 +1688,8 @@ def replay(run, payload):
             _outside(run, "empty-sample-binned", exc is None and got is None)
             return
         run.case(case, None)
-        got = _guard(run, case, "binned_ecdf", lambda: stats.binned_ecdf(numpy.array(x), numpy.array(vals)))
+        got = _guard(run, case, "binned_ecdf", lambda: stats.binned_ecdf(numpy.array(x), numpy.array(vals)),
+                     state=case.get("errstate"))
         if got is _FAILED:
             return
         want = [sum(1 for t in x if Fraction(t) <= Fraction(v)) / n for v in vals]
